@@ -79,6 +79,127 @@ def check_arity(ctx, rep, f, rule='R-ARITY'):
                 rep.holds(rule, g, st, 'unpacking into {} names is dominated by len({}) == {}'.format(k, src, k))
             else:
                 rep.violates(rule, g, st, 'a right-hand side taken from {} (all alternatives of a variable, of length 0, 1 or 2) is unpacked into {} names without a len({}) == {} test: ValueError when a terminal or epsilon alternative precedes the binary one'.format(cname, k, src, k))
+    n += _check_arity_indexed(ctx, rep, f, rule, conts, guarded_len, param_src, units)
+    return n
+
+
+def _local_guards(root, target):
+    """(expr, polarity) pairs known when `target` is evaluated inside the expression / comprehension `root`:
+    earlier operands of an `and` (true) / `or` (false), the test of a conditional expression, the filters of a
+    comprehension (all of them for the element, the earlier ones for a later filter)."""
+    out = []
+
+    def has(e):
+        return any(x is target for x in ast.walk(e))
+
+    def go(e):
+        if e is target:
+            return
+        if isinstance(e, ast.BoolOp):
+            for i, v in enumerate(e.values):
+                if has(v):
+                    out.extend((w, isinstance(e.op, ast.And)) for w in e.values[:i])
+                    go(v)
+                    return
+        if isinstance(e, ast.IfExp):
+            if has(e.body):
+                out.append((e.test, True)); go(e.body); return
+            if has(e.orelse):
+                out.append((e.test, False)); go(e.orelse); return
+        if isinstance(e, (ast.ListComp, ast.SetComp, ast.GeneratorExp, ast.DictComp)):
+            seen = []
+            for gen in e.generators:
+                if has(gen.iter):
+                    out.extend(seen); go(gen.iter); return
+                for c in gen.ifs:
+                    if has(c):
+                        out.extend(seen); go(c); return
+                    seen.append((c, True))
+            out.extend(seen)
+            for part in ([e.key, e.value] if isinstance(e, ast.DictComp) else [e.elt]):
+                if has(part):
+                    go(part); return
+            return
+        for c in ast.iter_child_nodes(e):
+            if isinstance(c, ast.AST) and has(c):
+                go(c)
+                return
+    go(root)
+    return out
+
+
+def _len_test(e, pol, src):
+    """k if (e, pol) says len(src) == k"""
+    if isinstance(e, ast.BoolOp) and isinstance(e.op, ast.And) and pol:
+        for v in e.values:
+            k = _len_test(v, True, src)
+            if k is not None:
+                return k
+    if isinstance(e, ast.UnaryOp) and isinstance(e.op, ast.Not):
+        return _len_test(e.operand, not pol, src)
+    if isinstance(e, ast.Compare) and len(e.ops) == 1:
+        a, b = e.left, e.comparators[0]
+        if isinstance(a, ast.Constant):
+            a, b = b, a
+        if isinstance(a, ast.Call) and isinstance(a.func, ast.Name) and a.func.id == 'len' and len(a.args) == 1 and u(a.args[0]) == src \
+                and isinstance(b, ast.Constant) and isinstance(b.value, int):
+            if (isinstance(e.ops[0], ast.Eq) and pol) or (isinstance(e.ops[0], ast.NotEq) and not pol):
+                return b.value
+    return None
+
+
+def _check_arity_indexed(ctx, rep, f, rule, conts, guarded_len, param_src, units):
+    """The index form of the same obligation: `BC[0]`, `BC[1]` on an element BC of a map of right-hand sides (a
+    statement loop or a comprehension over it) needs len(BC) == k with both positions inside, known at the use."""
+    n = 0
+    for g in units:
+        gx = ctx.facts(g)
+
+        def container_of(it):
+            if isinstance(it, ast.Subscript) and isinstance(it.value, ast.Name) and it.value.id in conts:
+                return it.value.id
+            if isinstance(it, ast.Name) and (g.qualname, it.id) in param_src:
+                return param_src[(g.qualname, it.id)]
+            return None
+        loops = []     # (src, container, scope node)
+        for nd in walk_no_nested(g.node):
+            if isinstance(nd, ast.For) and isinstance(nd.target, ast.Name) and container_of(nd.iter):
+                loops.append((nd.target.id, container_of(nd.iter), nd))
+            if isinstance(nd, (ast.ListComp, ast.SetComp, ast.GeneratorExp, ast.DictComp)):
+                for gen in nd.generators:
+                    if isinstance(gen.target, ast.Name) and container_of(gen.iter):
+                        loops.append((gen.target.id, container_of(gen.iter), nd))
+        for src, cname, scope in loops:
+            uses = [x for x in ast.walk(scope) if isinstance(x, ast.Subscript) and isinstance(x.value, ast.Name) and x.value.id == src
+                    and isinstance(x.slice, ast.Constant) and isinstance(x.slice.value, int) and isinstance(x.ctx, ast.Load)]
+            if not uses:
+                continue
+            n += 1
+            bad = None
+            ks = set()
+            for x in uses:
+                k = guarded_len.get(cname)
+                if k is None:
+                    if isinstance(scope, ast.For):
+                        st_id = gx.stmt_of_expr(x)
+                        for a in gx.guard_atoms(st_id) if st_id is not None else []:
+                            if a[0] == 'lencmp' and a[1] == src and ((a[3] is True and a[2][0] == 'Eq') or (a[3] is False and a[2][0] == 'NotEq')):
+                                k = a[2][1]
+                        if k is None and st_id is not None:
+                            for root in gx._own_roots(gx.cfg.node[st_id]):
+                                for e, pol in _local_guards(root, x):
+                                    k = _len_test(e, pol, src) if k is None else k
+                    else:
+                        for e, pol in _local_guards(scope, x):
+                            k = _len_test(e, pol, src) if k is None else k
+                if k is None or not (-k <= x.slice.value < k):
+                    bad = x
+                    break
+                ks.add(k)
+            if bad is not None:
+                rep.violates(rule, g, bad, 'position {} of a right-hand side taken from {} (all alternatives of a variable, of length 0, 1 or 2) is read without a len({}) == k test that covers it: IndexError on a terminal or epsilon alternative, or a longer alternative silently truncated'.format(bad.slice.value, cname, src))
+            else:
+                rep.holds(rule, g, uses[0], 'positions of `{}` (an element of {}) are read only where len({}) == {} is known'.format(src, cname, src, sorted(ks)[0]))
     return n
 
 
@@ -136,6 +257,9 @@ def check_slots(ctx, rep, f, rule='R-SLOT'):
             if isinstance(n, ast.comprehension) and u(n.iter) == C:
                 sites.append((n, n, 'comprehension over all slots'))
             if isinstance(n, ast.For) and u(n.iter) == C:
+                # a loop whose body only iterates over the ELEMENTS of the slot does nothing for an empty placeholder
+                if isinstance(n.target, ast.Name) and n.body and all(isinstance(b0, ast.For) and u(b0.iter) == n.target.id for b0 in n.body) and not n.orelse:
+                    continue
                 sites.append((n, None, 'loop over all slots'))
         # indexed consumption C[i] for i in range(..) in comprehensions and loops
         for n in walk_no_nested(f.node):
@@ -560,11 +684,37 @@ def check_index_agreement(ctx, rep, f, rule='R-INDEX'):
         for x in walk_no_nested(g.node):
             if isinstance(x, ast.Subscript) and u(x.value) == table_name:
                 idx_vars |= {n.id for n in ast.walk(x.slice) if isinstance(n, ast.Name)}
+        def everywhere(g0):
+            # the function and its nested helpers (an index may be used inside a local helper)
+            for x0 in ast.walk(g0.node):
+                yield x0
+        idx_vars |= {n.id for x in everywhere(g) if isinstance(x, ast.Subscript) and u(x.value) == table_name for n in ast.walk(x.slice) if isinstance(n, ast.Name)}
+        # parameters of nested helpers that receive such indices are index variables too (helper(i, j, a))
+        for h0 in g.nested.values():
+            idx_vars |= {p0 for p0 in h0.params}
         for st in walk_no_nested(g.node):
+            val = st.value if isinstance(st, ast.Assign) and len(st.targets) == 1 else None
+            tgt = st.targets[0] if val is not None else None
+            # q, position = _enumerate_states(D): a shared helper that returns (list(D.Q), index map) -- read through it
+            if val is not None and isinstance(tgt, ast.Tuple) and isinstance(val, ast.Call):
+                r0 = ctx.resolve_call(g, val)
+                if r0 is not None and r0.kind == 'func' and r0.target.parent is None:
+                    h = r0.target
+                    rets = [r1 for r1 in walk_no_nested(h.node) if isinstance(r1, ast.Return) and isinstance(r1.value, ast.Tuple) and len(r1.value.elts) == len(tgt.elts)]
+                    if len(rets) == 1:
+                        for t0, e0 in zip(tgt.elts, rets[0].value.elts):
+                            e1 = resolve_alias(h, e0)
+                            if isinstance(t0, ast.Name) and isinstance(e1, ast.Call) and isinstance(e1.func, ast.Name) and e1.func.id in ('list', 'sorted', 'tuple') and e1.args:
+                                hp = h.pos_params[0].arg if h.pos_params else ''
+                                src0 = resolve_alias(h, e1.args[0])
+                                L0 = t0.id
+                                if any(isinstance(x, ast.Subscript) and u(x.value) == L0 and isinstance(x.slice, ast.Name) and x.slice.id in idx_vars for x in everywhere(g)):
+                                    out[L0] = ('{}({}{})'.format(e1.func.id, u(src0).replace(hp + '.', '$0.'), ', ...' if (len(e1.args) > 1 or e1.keywords) else ''), st)
+                continue
             if isinstance(st, ast.Assign) and len(st.targets) == 1 and isinstance(st.targets[0], ast.Name) and isinstance(st.value, ast.Call) \
                     and isinstance(st.value.func, ast.Name) and st.value.func.id in ('list', 'sorted', 'tuple') and st.value.args:
                 L = st.targets[0].id
-                used = any(isinstance(x, ast.Subscript) and u(x.value) == L and isinstance(x.slice, ast.Name) and x.slice.id in idx_vars for x in walk_no_nested(g.node))
+                used = any(isinstance(x, ast.Subscript) and u(x.value) == L and isinstance(x.slice, ast.Name) and x.slice.id in idx_vars for x in everywhere(g))
                 if used:
                     src = resolve_alias(g, st.value.args[0])
                     p0 = g.pos_params[0].arg if g.pos_params else ''
